@@ -171,7 +171,7 @@ def brentsroot(f, bounds, tol=None, verbose=False, return_interval=False):
             print(f"[{numiter}] a={D.ar_numpy.to_numpy(a)}, b={D.ar_numpy.to_numpy(b)}, f(a)={D.ar_numpy.to_numpy(fa)}, f(b)={D.ar_numpy.to_numpy(fb)}")
     # the root is certified when the residual is small or when a sign change is bracketed to within the tolerance on x
     # (the residual of a steep or discontinuous function need not be small at any representable point)
-    success = (D.ar_numpy.abs(f(b)) <= tol) | ((D.ar_numpy.abs(b - a) < tol) & (fa * fb <= 0))
+    success = (D.ar_numpy.abs(f(b)) <= tol) | ((D.ar_numpy.abs(b - a) <= tol * D.ar_numpy.maximum(D.ar_numpy.abs(b), 1.0)) & (fa * fb <= 0))
     if return_interval:
         return b, success, (a, b)
     else:
@@ -312,7 +312,7 @@ def brentsrootvec(f, bounds, tol=None, verbose=False, return_interval=False, acc
         conv = D.ar_numpy.logical_not(D.ar_numpy.logical_or(D.ar_numpy.logical_or(fb == 0, fs == 0), D.ar_numpy.abs(b - a) < tol))
         conv = conv & (numiter <= 64)
         not_conv = D.ar_numpy.logical_not(conv)
-        true_conv = (D.ar_numpy.abs(fb) <= tol) | ((D.ar_numpy.abs(b - a) < tol) & (fa * fb <= 0))
+        true_conv = (D.ar_numpy.abs(fb) <= tol) | ((D.ar_numpy.abs(b - a) <= tol * D.ar_numpy.maximum(D.ar_numpy.abs(b), 1.0)) & (fa * fb <= 0))
 
     if verbose:
         with numpy.printoptions(precision=17, linewidth=200):
